@@ -76,7 +76,11 @@ var defaultBlackHole = []string{
 	"github.com/els0r/goProbe/v4/pkg/telemetry",
 }
 
-const repo = "/repo"
+// repo is the tree under test (GOSMT_REPO overrides it: used to run the checks against a scratch worktree
+// holding a seeded change); outDir receives evidence and replay files (GOSMT_OUT; default: the /verif tree)
+var repo = "/repo"
+
+var outDir = ""
 
 var origPath string
 
@@ -95,6 +99,13 @@ func main() {
 	os.Setenv("PATH", "/opt/veriftools/go1.26.8/bin:"+origPath)
 	if d := os.Getenv("VERIF_DIR"); d != "" {
 		verifDir = d
+	}
+	if d := os.Getenv("GOSMT_REPO"); d != "" {
+		repo = d
+	}
+	outDir = verifDir
+	if d := os.Getenv("GOSMT_OUT"); d != "" {
+		outDir = d
 	}
 	if t := os.Getenv("VERIF_TIER"); t != "" && !isFlagSet("tier") {
 		*tier = t
@@ -409,7 +420,7 @@ func (r *Run) runHarness(prog *ssa.Program, h HarnessCfg) *HResult {
 	// replay violations natively
 	for i, v := range res.Rep.Violations {
 		ro := ReplayOutcome{V: v}
-		ro.Path = filepath.Join(verifDir, "evidence/replay", fmt.Sprintf("%s-%s-%d.json", r.cfg.ID, h.Name, i))
+		ro.Path = filepath.Join(outDir, "evidence/replay", fmt.Sprintf("%s-%s-%d.json", r.cfg.ID, h.Name, i))
 		writeReplay(ro.Path, r.cfg.ID, h, v, params)
 		if r.noReplay {
 			ro.Confirmed = true
